@@ -9,7 +9,8 @@ func init() { registry["C11"] = checkC11 }
 // C11 (one part of it): the pending-attribute discipline of ReadFile's top-level loop. What "[opcode(...)]",
 // "[flags]", "readonly" and doc-comment lines say is carried in loop-local variables for the next definition;
 // the contract of ReadFile asserts that every iteration that handles a definition leaves all of them cleared
-// (PENDING) and that a record takes exactly the pending values when it is appended (ATTACH). The rest of C11
+// (PENDING) and that a record takes exactly the pending values when it is appended (ATTACH); the contracts of
+// readStruct / readMessage / readUnion / readEnum assert the same for the per-field pending state. The rest of C11
 // (the File equals what the text says, layout independence) is not decided by this check.
 func checkC11(r *Run) error {
 	e, err := r.loadEngine(r.Repo, ".")
@@ -17,7 +18,13 @@ func checkC11(r *Run) error {
 		return err
 	}
 	sel := Selection{
-		FuncFilter: func(key string) bool { return key == rootPkg+".ReadFile" },
+		FuncFilter: func(key string) bool {
+			switch key {
+			case rootPkg + ".ReadFile", rootPkg + ".readStruct", rootPkg + ".readMessage", rootPkg + ".readUnion", rootPkg + ".readEnum":
+				return true
+			}
+			return false
+		},
 		Keep: func(o *vc.Obligation) bool {
 			return o.Class == "COVER" || (o.Class == "ASSERT" && (o.Label == "PENDING" || o.Label == "ATTACH")) || o.Class == "INV-ENTRY" || o.Class == "INV-PRES"
 		},
@@ -25,6 +32,6 @@ func checkC11(r *Run) error {
 	if err := r.verify(e, []string{rootPkg}, sel, false); err != nil {
 		return err
 	}
-	r.Explanation = "Partial: only the pending-attribute discipline of ReadFile's top-level loop is decided. The contract of ReadFile (in /repo/verif_contracts.go) asserts, for all token sequences, that after the statement that ends an iteration the pending flags / read-only marker / opcode / comment lines are all cleared (PENDING) and that a struct, message or union takes exactly the pending opcode and read-only marker at the moment it is appended (ATTACH). Field-level pending state inside readStruct/readMessage/readUnion/readEnum, the content of comments, type expressions, enum values and layout independence are not covered."
+	r.Explanation = "Partial: only the pending-attribute discipline of ReadFile's top-level loop is decided. The contract of ReadFile (in /repo/verif_contracts.go) asserts, for all token sequences, that after the statement that ends an iteration the pending flags / read-only marker / opcode / comment lines are all cleared (PENDING) and that a struct, message or union takes exactly the pending opcode and read-only marker at the moment it is appended (ATTACH). The same discipline is asserted for the per-field pending state (deprecation and its message, comment lines, comment tags) inside readStruct, readMessage, readUnion and readEnum (for enum options only the deprecation part). The content of comments, type expressions, enum values and layout independence are not covered."
 	return nil
 }
